@@ -13,6 +13,22 @@ CHECKS = {
    text="Generated handle histories; after every step every count accessor on every live handle, and counts read inside borrow callbacks, must equal the reference model's number of owning handles.",
    note="Trusted: the reference model's owner arithmetic (+1 per clone-style op, -1 per release, 0 otherwise).",
    technique="model-based property testing of operation histories (proptest), count accessors vs reference model"),
+ "C02": dict(engine="sched", category="exploration", design="5 (C02), 4.4",
+   text="Generated multi-thread clone/read/drop/convert/send programs executed under a harness-owned scheduler and an operational C++20/Rust memory model (stale loads, release sequences, fences) with vector-clock happens-before checking of every payload access, count access, destructor and deallocation. Samples schedules; shrinks counter-examples.",
+   note="Trusted: the operational memory model in rt::sim (no load buffering), the cfg(triomphe_verif) atomic shim, the tracking allocator. Sampled schedules, 2-4 threads, <=8 ops per thread.",
+   technique="schedule fuzzing (proptest-generated programs + schedule/staleness bytes) with a vector-clock race oracle"),
+ "C03": dict(engine="hist+sched", category="exploration", design="5 (C03)",
+   text="Histories: verdict of every uniqueness-gated API versus the reference model's owner count, same handle back on decline. Schedules: polling for uniqueness then writing must be ordered after all other threads' reads (vector clocks).",
+   note="Trusted: reference model, operational memory model of rt::sim; sampled histories and schedules.",
+   technique="model-based history testing + schedule fuzzing with a happens-before oracle (proptest)"),
+ "C08": dict(engine="hist+sched", category="exploration", design="5 (C08)",
+   text="Histories: make_mut/make_unique/OffsetArc::make_mut in place iff sole owner, else exactly one Clone into a fresh solely-owned block, all other handles keep reading the old value. Schedules: copy-on-write writes never race with or become visible to other threads' reads.",
+   note="Trusted: reference model, Tok clone counter, operational memory model of rt::sim; sampled.",
+   technique="model-based history testing + schedule fuzzing with a happens-before oracle (proptest)"),
+ "C09": dict(engine="hist+sched", category="exploration", design="5 (C09)",
+   text="Histories: unwrap family moves the very value out iff sole owner (identity-tracked, destructor not run, block freed), else same handle back. Schedules: racing unwraps/drops leave each value moved out to exactly one thread or destroyed exactly once.",
+   note="Trusted: reference model, Tok registry, operational memory model of rt::sim; sampled.",
+   technique="model-based history testing + schedule fuzzing with conservation and happens-before oracles (proptest)"),
 }
 NOT_YET = {
 }
@@ -44,7 +60,8 @@ m = {
    "add_only": True,
  },
  "engines": [
-   {"name": "hist", "path": "harness/tv/src/hist_sized.rs", "serves_properties": ["C01", "C04"], "kind_free_text": "model-based history engine (proptest-generated op sequences, reference model, tracking allocator, identity-tracked payloads)"},
+   {"name": "sched", "path": "harness/tv/src/sched.rs + harness/rt/src/sim.rs", "serves_properties": ["C02", "C03", "C08", "C09"], "kind_free_text": "schedule engine: generated thread programs under a harness-owned scheduler, operational memory model with stale loads, vector-clock race oracle"},
+   {"name": "hist", "path": "harness/tv/src/hist_sized.rs", "serves_properties": ["C01", "C03", "C04", "C08", "C09"], "kind_free_text": "model-based history engine (proptest-generated op sequences, reference model, tracking allocator, identity-tracked payloads)"},
  ],
  "checks": checks,
  "not_applicable": na,
